@@ -3,7 +3,7 @@ use vharness::cli::{quiet_panics, Args};
 fn main() {
     let a = Args::parse();
     quiet_panics();
-    if ["mac", "macreplay", "macmc", "nbwalk", "awalk", "certwalk"].contains(&a.cmd.as_str()) {
+    if ["mac", "macreplay", "macmc", "nbwalk", "awalk", "certwalk", "mcwalk"].contains(&a.cmd.as_str()) {
         vharness::cli::spawn_watchdog();
     }
     // a panic that escapes the recorder itself (not the code under test, whose panics are trace events) is a tool
@@ -29,6 +29,7 @@ fn dispatch(a: &Args) {
         "nbwalk" => vharness::macdrv::vh_nbwalk(&a),
         "awalk" => vharness::macdrv::vh_awalk(&a),
         "certwalk" => vharness::macdrv::vh_certwalk(&a),
+        "mcwalk" => vharness::macdrv::vh_mcwalk(&a),
         "cmds_items" => vharness::cmdrec::cmds_items(&a),
         "cmds_fields" => vharness::cmdrec::cmds_fields(&a),
         "idtext" => vharness::cmdrec::idtext(&a),
